@@ -26,6 +26,25 @@ pub fn opt_ts_ge(a: Option<BlobRecordTimestamp>, b: Option<BlobRecordTimestamp>)
     ensures r == opt_ts_ge_spec(a, b)
 { unimplemented!() }
 
+// `a > b` / `a >= b` on the value `timestamp()` returns, whatever its shape: `Option<BlobRecordTimestamp>`
+// (derived PartialOrd: None < Some(_)) or a bare `BlobRecordTimestamp` (derived: order of the inner u64)
+pub trait TsLike: Sized {
+    spec fn gt_spec(a: Self, b: Self) -> bool;
+    spec fn ge_spec(a: Self, b: Self) -> bool;
+}
+impl TsLike for Option<BlobRecordTimestamp> {
+    open spec fn gt_spec(a: Self, b: Self) -> bool { opt_ts_gt_spec(a, b) }
+    open spec fn ge_spec(a: Self, b: Self) -> bool { opt_ts_ge_spec(a, b) }
+}
+impl TsLike for BlobRecordTimestamp {
+    open spec fn gt_spec(a: Self, b: Self) -> bool { a.0 > b.0 }
+    open spec fn ge_spec(a: Self, b: Self) -> bool { a.0 >= b.0 }
+}
+#[verifier::external_body]
+pub fn ts_gt<T: TsLike>(a: T, b: T) -> (r: bool) ensures r == T::gt_spec(a, b) { unimplemented!() }
+#[verifier::external_body]
+pub fn ts_ge<T: TsLike>(a: T, b: T) -> (r: bool) ensures r == T::ge_spec(a, b) { unimplemented!() }
+
 impl Clone for BlobRecordTimestamp { #[verifier::external_body] fn clone(&self) -> (r: Self) ensures r == *self { unimplemented!() } }
 impl Copy for BlobRecordTimestamp {}
 
